@@ -160,6 +160,17 @@ CLAIMED = {
    note="Trusted: Lean kernel; lexer/JSON-text models as sampled; Spec/Spelling.lean as the meaning of 'the spelling of'; doubles inside literals inherit C08's float caveat.",
    design="DESIGN.md §7 C09",
    technique="Lean 4 round-trip theorems over the lexer model + correspondence stream with checker-side spelling"),
+ "C17": dict(
+   text="Machine-checked theorems (Lean 4): the feature table and every cfg(feature) site are re-extracted from Cargo.toml/src on each run and "
+        "proved to be the whitelist — two features, all feature-dependent items in lib.rs, `sync` guarding exactly the two `Rcvar` alias "
+        "definitions; the specialised ToJmespath fast paths (Value, Variable, Rcvar, strings, all integer widths, f32/f64, bool, unit) "
+        "produce the same value as the generic serde path for every JSON-representable input (induction over Value / Variable). The "
+        "`features` stream builds the harness against /repo under default, sync, specialized and sync+specialized (nightly) and runs the "
+        "same eval / parse / serde / tojm cases under all four, comparing outputs with each other and with the model.",
+   note="Trusted: Lean kernel; translate.py; cargo/rustc stable+nightly; conversion model as sampled. Non-finite float inputs differ between the paths "
+        "(null vs error) but are not JSON-representable: counted in evidence, outside the quantifier.",
+   design="DESIGN.md §7 C17",
+   technique="Lean 4 theorems (regenerated cfg whitelist; specialised = generic conversion) + cross-build correspondence streams"),
 }
 
 NOT_YET = "check not built yet in this session (work in progress; see DESIGN.md §10 for the order of work)"
@@ -181,7 +192,7 @@ def main():
                 technique=c["technique"]))
     m = dict(
         version=1,
-        setup_cmd="cd /verif && python3 tools/translate.py && cd /verif/lean && lake build JmesVerif jmdriver && cd /verif/harness && CARGO_NET_OFFLINE=true cargo build --release --offline",
+        setup_cmd="cd /verif && python3 tools/translate.py && cd /verif/lean && lake build JmesVerif jmdriver && cd /verif/harness && CARGO_NET_OFFLINE=true cargo build --release --offline && python3 /verif/tools/warm.py",
         hooks=dict(guard="jmespath_rs_verif", enable="none needed: the harness links /repo/jmespath as a path dependency and uses only its public API",
                    baseline_off_cmd="cd /repo/jmespath && CARGO_NET_OFFLINE=true cargo test --offline",
                    source_commits=[], add_only=True),
